@@ -35,7 +35,11 @@ EXPLANATION = (
     "control dependent on it and what is assigned under it flows only into the return expression.  R5 row and column get the same "
     "index base (start on both / Fortran +1 on both, 1 = FortranBackend's start_idx).  R6 (added) every emission of an entry hands "
     "_expr_to_jac_str the full past-placeholder map, because any derivative of a vector field with delayed factors may still contain "
-    "a placeholder.  NOT decided: the values of derivatives, DFDP numerics, the vector field itself (C01), PAR slot numbers (C18)."
+    "a placeholder.  Recognition is by role: group containers are followed through setdefault/aliases/stored lists/comprehensions, "
+    "the layout loop may live in a private helper the three consumers call, templates may be f-strings/.format/%, key components may "
+    "be unpacked, offsets may be written on either side; an index whose provenance is not understood ends in ANALYSIS-ERROR, a "
+    "violation is reported only when it is positively something else (enumerate position, hand-advanced counter, literal, ...).  "
+    "NOT decided: the values of derivatives, DFDP numerics, the vector field itself (C01), PAR slot numbers (C18)."
 )
 RULE_TEXT = ("instances = entry-table stores found by def-use from sympy.diff calls, emitter call sites / templates found by name "
              "resolution and f-string templates, layout loops found by their iteration domain; each is decided by reaching "
@@ -2141,6 +2145,7 @@ def r4_sparse_confined(ctx, rid):
                 st = n
                 while not isinstance(st, ast.stmt):
                     st = parent(st)
+                under_guard = any(isinstance(g, ast.If) and g is not st and contains(g, st) for g in guards)
                 if isinstance(st, ast.Assign) and all(isinstance(t, ast.Name) for t in st.targets):
                     new = {t.id for t in st.targets} - tainted
                     if new:
@@ -2148,6 +2153,8 @@ def r4_sparse_confined(ctx, rid):
                         changed = True
                 elif isinstance(st, ast.Expr) and isinstance(st.value, ast.Call) and call_name(st.value) == "generate_func_tail":
                     pass
+                elif under_guard and isinstance(st, (ast.If, ast.Raise)):
+                    pass        # tested / reported inside the guarded block, whose statements were vetted above
                 elif norm(st) not in flow_bad:
                     flow_bad.append(norm(st))
     tails = [c for c in walk_shallow(f.node) if isinstance(c, ast.Call) and call_name(c) == "generate_func_tail"]
